@@ -22,7 +22,7 @@ for _c, (_h, _sup, _nd, _ref, _lip) in _COV.items():
                # sqrt(2), sqrt(3) do not finish inside the quick budget and are decided in the thorough tier
                'quick': {'VF_PD_LEVEL': 1 if _c in ('CovWendland2', 'CovPenta') else 2}, 'thorough': {'VF_PD_LEVEL': 2}},
       bounds={'quick': 'h, s free non-negative reals (a continuum); point sets: 1-D up to 5 equally spaced points with 9 weight vectors; 2-D triangle, square, hexagon, hexagon+centre; 3-D tetrahedron, octahedron, cube'},
-      timeout_ms={'quick': 100000, 'thorough': 1800000}, validate={'quick': 25, 'thorough': 60},
+      timeout_ms={'quick': 100000, 'thorough': 600000}, validate={'quick': 25, 'thorough': 60},
       native=True,
       what='%s::_evaluateCov, getMaxNDim: shape facts, published closed form, necessary positive-definiteness conditions per declared dimension' % _c,
       out='sufficiency of positive definiteness (all point sets); anisotropy/rotation/sill (CovAniso, Tensor); rounding of the <=20 floating operations',
